@@ -113,6 +113,11 @@ SCENARIOS = {
     'nested-dirs': ('out/bin/prog', ['inc/a.h', 'inc/deep/b c.h']),
     'first-char-percent': ('prog', ['%cfg.h', 'x%.h']),
     'precompiled-header': ('prog', ['pre.h', 'seen-through-pch.h']),
+    # characters in the *object* path (through the program name / its directory) that the include statement or the
+    # compiler's own depfile must cope with
+    'percent-in-output-name': ('a%b', ['a.h', 'b.h']),
+    'colon-in-output-directory': ('sub:dir/prog', ['a.h', 'b.h']),
+    'dollar-in-output-name': ('do$llar', ['a.h', 'b.h']),
 }
 
 
